@@ -93,6 +93,8 @@ def ops(S):
                     acts.append("inc")
                 if 0 < cur * 2 <= VMAX:
                     acts.append("mul2")
+                if cur >= 1:
+                    acts.append("dec")
                 for a in acts:
                     out.append(("ref", pt, a))
     for i in range(len(S.handles)):
@@ -197,6 +199,12 @@ def step(S, op):
                 elif act == "mul2":
                     r *= 2
                     S.model[pt] = S.model[pt] * 2
+                elif act == "dec":
+                    r -= 1
+                    if S.model[pt] == 1:
+                        del S.model[pt]
+                    else:
+                        S.model[pt] -= 1
                 elif act == "keep":
                     S.handles = (S.handles + [(pt, r)])[-2:]
             if content(T.getRoot()) != S.model:
